@@ -337,7 +337,7 @@ def run(chk, tier):
     terminator_rule(chk, db)
     size_bound_rule(chk, plain, table)
     # SLOTS-W: a size store that may grow the string is on a path that writes the newly exposed characters
-    slots.check(chk, plain, ["basic_inplace_string"], lambda r: False, only=("W",))
+    slots.check(chk, plain, ["basic_inplace_string"], lambda r: False, only=("W", "U"))
     if chk.rule_instances.get("SLOTS-W", 0) < 4:
         chk.analysis_broken("SLOTS-W: only %d growing size stores found in basic_inplace_string (floor 4)" % chk.rule_instances.get("SLOTS-W", 0))
     same_name_delegation(chk, db)
